@@ -559,6 +559,22 @@ def run(tier):
     chk.guard(rule_r4, chk, prog)
     chk.guard(rule_r5, chk, prog)
     chk.guard(rule_r6, chk, prog)
+    # "every enabled mutator" and "any s-expression of the output": the set
+    # of enabled mutators is not changed behind the user's back between the
+    # strategies, and the walk that enumerates the candidates' nodes visits
+    # every node (shared with C14.R6 and C12.R5)
+    from . import c14, c12, options_table
+    sub14 = Check('C14', 'proof', tier, [], [])
+    chk.guard(c14.rule_r6, sub14, prog, options_table.registry(prog))
+    chk.adopt('C02.R7', 'mutator toggles are written only by the option '
+              'actions and by automatic theory detection: a strategy that '
+              'switches a mutator off leaves the following strategy without '
+              'it (shared with C14.R6)', sub14)
+    sub12 = Check('C12', 'other', tier, [], [])
+    chk.guard(c12.rule_r5, sub12, prog)
+    chk.adopt('C02.R8', 'the traversals that enumerate the nodes offered to '
+              'the mutators visit every node exactly once (shared with '
+              'C12.R5)', sub12)
     extra = None
     if tier == 'thorough':
         from .. import selftest
